@@ -191,6 +191,47 @@ def unlock_scope(ai: int, a: int, b: int, c: int, d: int, a2: int, b2: int, rais
     return all_zero() and not key.is_unlocked and not sub.is_unlocked
 
 
+@ob('O6.2b', 'an unlock that fails part-way (the subkey is protected under another passphrase) raises and leaves primary and subkey locked with zeroed secret fields',
+    'algorithm in {RSA, EdDSA}; 6 symbolic secret octets; the failing component is the subkey', cond_timeout={'q': 280, 't': 900}, flags=('symmpi',), partitions=[['ai == 0'], ['ai == 3']])
+def unlock_partial_failure(ai: int, a: int, b: int, c: int, d: int, a2: int, b2: int) -> bool:
+    """
+    pre: ai in (0, 3)
+    pre: 128 <= a < 256 and 128 <= b < 256 and 128 <= c < 256 and 128 <= d < 256 and 128 <= a2 < 256 and 128 <= b2 < 256
+    post: _
+    """
+    for k in (0, 3):
+        if ai == k:
+            key, sub = key_of(k, a, b, c, d, a2, b2)
+    Cipher.reset()
+    Feed.reset([])
+    key.protect('A', SymmetricKeyAlgorithm.AES128, HashAlgorithm.SHA1)
+    sub._key.unprotect('A')
+    sub._key.protect('B', SymmetricKeyAlgorithm.AES128, HashAlgorithm.SHA1)         # each secret-key packet has its own S2K: legal
+    Cipher.garbage = bytes(range(1, 42))
+    entered = False
+    try:
+        with key.unlock('A'):
+            entered = True
+    except (PGPDecryptionError, PGPError):
+        pass
+    if entered:
+        return False
+    return all(v == 0 for v in privfields(key._key) + privfields(sub._key)) and not key.is_unlocked and not sub.is_unlocked
+
+
+from harness import c12 as _c12
+
+
+@ob('O6.6', 'the key-encryption key for a protected key is derived per RFC 4880 3.7.1 for every passphrase length and coded count (what an independent implementation '
+            'will derive when it reads the export): shared with C12-O12.1', 'as C12-O12.1: passphrase length unbounded, all 256 coded counts (Engine A)', engine='A')
+def s2k_arithmetic(tier):
+    return _c12.o12_1(tier)
+
+
+def replay_arith(L, coded, iterated_):
+    return _c12.replay_arith(L, coded, iterated_)
+
+
 @ob('O6.4', 'the exported protected key depends on the secret integers only through the cipher: with a cipher whose output ignores its input the export is '
             'the same octets whatever the secret integers are', 'algorithm in {RSA, DSA, EdDSA}; 4 symbolic non-zero secret octets (same integer sizes: the ciphertext length necessarily equals the plaintext length) against fixed ones', cond_timeout={'q': 280, 't': 900},
     flags=('symmpi',), partitions=[['ai == 0'], ['ai == 1'], ['ai == 3']])
@@ -253,4 +294,4 @@ def foreign_forms(spec: int, u255: bool, x0: int, x1: int) -> bool:
 SANITY = ['protect_layout(0, 0x81, 2, 3, 4, "pw", bytes(range(16)), bytes(range(8)))', 'protect_layout(1, 0xFF, 0, 0, 0, "", bytes(16), bytes(8))', 'protect_layout(3, 0x80, 9, 9, 9, "\\u00e9", bytes(range(16)), b"abcdefgh")',
           'unlock_accept(True, b"\\x00\\x08\\x05\\x00\\x0d")', 'unlock_accept(True, b"\\x00\\x08\\x05\\x00\\x0e")', 'unlock_accept(False, b"\\x00\\x08\\x05" + inj_digest(b"\\x00\\x08\\x05"))',
           'unlock_accept(False, bytes(23))', 'unlock_scope(0, 0x81, 2, 3, 4, 0x91, 7, False, True)', 'unlock_scope(3, 0x81, 2, 3, 4, 0x91, 7, True, True)', 'unlock_scope(0, 0x81, 2, 3, 4, 0x91, 7, False, False)',
-          'export_independent(0, 0xF1, 9, 9, 9)', 'export_independent(3, 0xF1, 9, 9, 9)', 'foreign_forms(3, False, 1, 2)', 'foreign_forms(0, True, 1, 2)', 'foreign_forms(101, False, 0, 0)', 'foreign_forms(1, True, 0, 0)']
+          'unlock_partial_failure(0, 0x81, 0x82, 0x83, 0x84, 0x91, 0x92)', 'unlock_partial_failure(3, 0x81, 0x82, 0x83, 0x84, 0x91, 0x92)', 'export_independent(0, 0xF1, 9, 9, 9)', 'export_independent(3, 0xF1, 9, 9, 9)', 'foreign_forms(3, False, 1, 2)', 'foreign_forms(0, True, 1, 2)', 'foreign_forms(101, False, 0, 0)', 'foreign_forms(1, True, 0, 0)']
